@@ -36,7 +36,7 @@ ASSUMPTIONS = ["the memoised Python functions are pure functions of the construc
                "hash()/== of cache keys are deterministic within a process (str hashing is salted per process only)",
                "T4 takes the extensional equality of the two extract_sequence paths as a hypothesis (C05's theorem)"]
 
-KINDMODES = [f"{k}.{m}" for k in G.KINDS for m in G.MODES]
+KINDMODES = [f"{k}.{m}.{sp}" for sp in "es" for k in G.KINDS for m in G.MODES]
 
 
 def impl(line):
@@ -74,7 +74,7 @@ def _seqs(alphabet, n):
 def lru_cases(run):
     rng = run.rng
     for cap in range(0, 4):
-        for n in range(0, 7):
+        for n in range(1, 7):
             for ks in _seqs([1, 2, 3], n):
                 yield f"lru {cap} {n} " + " ".join(map(str, ks))
     run.exhaustive = True
@@ -218,8 +218,8 @@ _TABLE_CACHE = {}
 def tokens_for(kindmode):
     """the call tokens of a kind (introspection of the real class + the argument table); shape does not depend on seed"""
     if kindmode not in _TABLE_CACHE:
-        kind, mode = kindmode.split(".")
-        r = G.make(kind, random.Random(0), mode)
+        kind, mode, sp = kindmode.split(".")
+        r = G.make(kind, random.Random(0), mode, sp)
         _TABLE_CACHE[kindmode] = sorted(call_table(r, r.build()))
     return _TABLE_CACHE[kindmode]
 
@@ -262,8 +262,8 @@ def hist_cases(run):
     from inscripta.biocantor.parent import parent as pm
     cap = pm.PARENT_CACHE_SIZE
     rng = run.rng
-    per = 6 if run.tier == "quick" else 120
     for km in KINDMODES:
+        per = (4 if km.endswith(".e") else 2) if run.tier == "quick" else (80 if km.endswith(".e") else 40)
         for _ in range(per):
             seed = rng.randint(0, 10 ** 6)
             h, flavour = history(rng, km, cap)
